@@ -1,6 +1,7 @@
 import BadgerModel.Mvcc
 import BadgerModel.Spec.Mvcc
 import BadgerProofs.Lemmas.Order
+import BadgerProofs.Lemmas.Sorted
 /-!
 # Frame lemmas for the transaction layer (`Db.findTxn/setTxn/modify/doneRead/discardTxn`)
 and the specification of user-level scans used by C05.
@@ -391,24 +392,6 @@ theorem mem_memPut_self (e : Ent) (m : List Ent) : e ∈ memPut e m := by
     unfold memPut
     split <;> simp [ih]
 
-theorem mem_memPut {x e : Ent} {m : List Ent} (h : x ∈ memPut e m) : x = e ∨ x ∈ m := by
-  induction m with
-  | nil => simpa [memPut] using h
-  | cons y ys ih =>
-    unfold memPut at h
-    split at h
-    · simpa using h
-    · simp only [List.mem_cons] at h ⊢
-      rcases h with h | h
-      · exact .inl h
-      · exact .inr (.inr h)
-    · simp only [List.mem_cons] at h ⊢
-      rcases h with h | h
-      · exact .inr (.inl h)
-      · rcases ih h with h | h
-        · exact .inl h
-        · exact .inr (.inr h)
-
 /-- `Put` removes an entry only by overwriting its own `(key, version)` slot -/
 theorem mem_memPut_of_mem {y e : Ent} {m : List Ent} (h : y ∈ m) :
     y ∈ memPut e m ∨ (y.key = e.key ∧ y.ver = e.ver) := by
@@ -439,7 +422,7 @@ theorem mem_foldl_memPut {x : Ent} {es m : List Ent}
   | cons e es ih =>
     rcases ih h with h | h
     · exact .inl (List.mem_cons_of_mem _ h)
-    · rcases mem_memPut h with h | h
+    · rcases mem_memPut_imp h with h | h
       · exact .inl (h ▸ List.mem_cons_self ..)
       · exact .inr h
 
@@ -490,33 +473,6 @@ theorem slot_foldl_memPut {e : Ent} {es m : List Ent} (h : e ∈ es ∨ e ∈ m)
       · exact ih (.inr h)
       · obtain ⟨x, hx, h1, h2⟩ := ih (m := memPut a m) (e := a) (.inr (mem_memPut_self a m))
         exact ⟨x, hx, by rw [h1, h.1], by rw [h2, h.2]⟩
-
-theorem memPut_sorted {e : Ent} {m : List Ent} (h : SortedEnts m) : SortedEnts (memPut e m) := by
-  unfold SortedEnts at *
-  induction m with
-  | nil => simp [memPut]
-  | cons x xs ih =>
-    rw [List.pairwise_cons] at h
-    unfold memPut
-    split
-    · rename_i hlt
-      rw [List.pairwise_cons]
-      refine ⟨?_, List.pairwise_cons.mpr h⟩
-      intro y hy
-      simp only [List.mem_cons] at hy
-      rcases hy with hy | hy
-      · subst hy; exact hlt
-      · exact entCmp_lt_trans hlt (h.1 y hy)
-    · rename_i heq
-      rw [List.pairwise_cons]
-      exact ⟨fun y hy => entCmp_lt_of_eq_of_lt heq (h.1 y hy), h.2⟩
-    · rename_i hgt
-      rw [List.pairwise_cons]
-      refine ⟨?_, ih h.2⟩
-      intro y hy
-      rcases mem_memPut hy with hy | hy
-      · subst hy; exact (entCmp_gt_iff_lt _ _).mp hgt
-      · exact h.1 y hy
 
 theorem foldl_memPut_sorted {es m : List Ent} (h : SortedEnts m) :
     SortedEnts (es.foldl (fun m e => memPut e m) m) := by
@@ -664,12 +620,6 @@ theorem newestFrom_some {b : Option Ent} {l : List Ent} {k : Bytes} {ts : Nat} {
           · exact .inr h'
       · exact .inr h'
 
-theorem newestLE_some {l : List Ent} {k : Bytes} {ts : Nat} {r : Ent}
-    (h : newestLE l k ts = some r) : r ∈ l ∧ r.key = k ∧ r.ver ≤ ts := by
-  rcases newestFrom_some h with h | h
-  · exact h
-  · cases h
-
 theorem newestFrom_ver_ge {b : Option Ent} {l : List Ent} {k : Bytes} {ts : Nat} :
     ∃ r, newestFrom b l k ts = r ∧
       (∀ y, b = some y → ∃ r', r = some r' ∧ y.ver ≤ r'.ver) ∧
@@ -727,7 +677,7 @@ theorem newestLE_none_iff {l : List Ent} {k : Bytes} {ts : Nat} :
     cases hr : newestLE l k ts with
     | none => rfl
     | some r =>
-      have := newestLE_some hr
+      have := newestLE_some_mem hr
       exact absurd ⟨this.2.1, this.2.2⟩ (h r this.1)
 
 /-! ## all entries of a state -/
@@ -1065,5 +1015,64 @@ theorem parseItems_live (o : IterOpts) (readTs now : Nat) (hall : o.allVersions 
                 · exact ih2 _ _ x hx
           · exact ih1 _ _ x hx
   exact ⟨fun fuel => (key fuel).1, fun fuel => (key fuel).2⟩
+
+
+/-- the pending write `Txn.Get` consults first -/
+def pendingHit (t : TxnM) (k : Bytes) : Option Ent :=
+  if t.update then t.pending.find? (·.key == k) else none
+
+/-- answer of `Txn.Get` as a function of the transaction record, the clock and `DB.get` -/
+def getAnswer (t : TxnM) (k : Bytes) (now : Nat) (snap : Option Ent) : GetRes :=
+  if k.isEmpty then .err "err:emptykey"
+  else if t.discarded then .err "err:discarded"
+  else match pendingHit t k with
+    | some e => if deletedOrExpired e.emeta e.exp now then .notfound else .found e t.readTs
+    | none => match snap with
+      | none => .notfound
+      | some e => if deletedOrExpired e.emeta e.exp now then .notfound else .found e e.ver
+
+theorem txnGet_eq {d : Db} {id : Nat} {t : TxnM} (k : Bytes) (h : d.findTxn id = some t) :
+    d.txnGet id k =
+      (if k.isEmpty || t.discarded || (pendingHit t k).isSome || !t.update then d
+       else d.setTxn { t with reads := k :: t.reads },
+       getAnswer t k d.now (d.lsm.get k t.readTs)) := by
+  unfold Db.txnGet getAnswer pendingHit
+  rw [h]
+  dsimp -zeta only
+  cases hk : k.isEmpty
+  · cases hd : t.discarded
+    · cases hu : t.update
+      · simp only [Bool.false_eq_true, if_false, Bool.or_false, Bool.not_false, Bool.or_true, if_true,
+          Option.isSome_none]
+        cases d.lsm.get k t.readTs with
+        | none => rfl
+        | some e => by_cases hx : deletedOrExpired e.emeta e.exp d.now = true <;> simp [hx]
+      · simp only [if_true, Bool.false_eq_true, if_false, Bool.or_false, Bool.not_true, Bool.false_or]
+        cases hp : t.pending.find? (·.key == k) with
+        | some e =>
+          simp only [Option.isSome_some, if_true]
+          by_cases hx : deletedOrExpired e.emeta e.exp d.now = true <;> simp [hx]
+        | none =>
+          simp only [Option.isSome_none, Bool.false_eq_true, if_false, setTxn_lsm, setTxn_now]
+          cases d.lsm.get k t.readTs with
+          | none => rfl
+          | some e => by_cases hx : deletedOrExpired e.emeta e.exp d.now = true <;> simp [hx]
+    · simp
+  · simp
+
+/-- the key `Seek`/`Rewind` positions at: the argument, or the prefix option -/
+def seekKeyOf (o : IterOpts) (seek : Option Bytes) : Bytes :=
+  match seek with
+  | some k => if k.isEmpty then o.prefix_ else k
+  | none => o.prefix_
+
+def seekFrom (merged : List Ent) (rev : Bool) (readTs : Nat) (key : Bytes) : List Ent :=
+  if key.isEmpty then (if rev then merged.reverse else merged)
+  else if !rev then merged.dropWhile (fun e => kvCmp e.key e.ver key readTs == .lt)
+  else merged.reverse.dropWhile (fun e => kvCmp e.key e.ver key 0 == .gt)
+
+theorem seekList_eq (merged : List Ent) (o : IterOpts) (readTs : Nat) (seek : Option Bytes) :
+    seekList merged o readTs seek = seekFrom merged o.reverse readTs (seekKeyOf o seek) := rfl
+
 
 end Badger
